@@ -484,12 +484,15 @@ def main(plugin) -> int:
     gen_tables()
 
     # cross-model agreement modules (harness/agree.json: property -> extra Lean modules whose theorems
-    # say that this property's model of a function equals another property's model of the same function)
+    # say that this property's model of a function equals another property's model of the same
+    # function).  They import OTHER properties' models, so they are built and audited separately: when
+    # they check, their theorems are part of the audited set; when they do not build (e.g. because a
+    # source change broke another property's model), that is recorded in the evidence and escalates
+    # the exploration, but it is not a broken obligation of THIS property.
+    agree_mods = []
     try:
         _agree = json.load(open(os.path.join(ROOT, "harness", "agree.json")))
-        extra = [m for m in _agree.get(pid, []) if m not in plugin.PROPS]
-        if extra:
-            plugin.PROPS = list(plugin.PROPS) + extra
+        agree_mods = [m for m in _agree.get(pid, []) if m not in plugin.PROPS]
     except (OSError, ValueError):
         pass
 
@@ -506,16 +509,25 @@ def main(plugin) -> int:
         if not broken:
             broken.append(log_props[-1500:])
 
+    ok_agree, agree_note = True, ""
+    if agree_mods and ok_props:
+        ok_agree, log_agree = lake_build(agree_mods)
+        if not ok_agree:
+            m = re.search(r"error: (\S+?):(\d+):(\d+): (.*)", log_agree)
+            agree_note = (f"{m.group(1)}:{m.group(2)}: {m.group(4)[:200]}" if m else log_agree[-400:])
+            sys.stderr.write(f"[{pid}] cross-model agreement modules do not build (not a verdict): {agree_note}\n")
+
     # 3. audit
     aud = {"ok": False, "theorems": [], "axioms": {}, "forbidden": [], "bad_axioms": {}}
     if ok_props:
-        aud = audit(list(plugin.PROPS), pid)
+        aud = audit(list(plugin.PROPS) + (agree_mods if ok_agree else []), pid)
         if not aud["ok"]:
             broken += [f"audit: {x}" for x in aud["forbidden"]]
             broken += [f"audit: {t} uses {a}" for t, a in aud["bad_axioms"].items()]
     if args.tier == "thorough" and ok_props and os.environ.get("VERIF_NO_LEANCHECKER") != "1":
         with Lock():
-            r = subprocess.run(["lake", "env", "leanchecker"] + list(plugin.PROPS), cwd=LEAN,
+            r = subprocess.run(["lake", "env", "leanchecker"] + list(plugin.PROPS)
+                               + (agree_mods if ok_agree else []), cwd=LEAN,
                                capture_output=True, text=True, timeout=3000)
         if r.returncode != 0:
             broken.append("leanchecker: " + (r.stdout + r.stderr)[-500:])
@@ -546,7 +558,7 @@ def main(plugin) -> int:
     # last validated against (harness/pins.json), explore with extra seeds (never a verdict by itself)
     anchors_changed = anchors_differ(plugin)
     fn_changed = modelled_changed(plugin)
-    if (anchors_changed or fn_changed) and args.tier == "quick" and not getattr(plugin, "NO_ESCALATION", False):
+    if (anchors_changed or fn_changed or not ok_agree) and args.tier == "quick" and not getattr(plugin, "NO_ESCALATION", False):
         for extra_seed in (1, 2, 3):
             cases += list(plugin.cases(args.tier, random.Random(seed * 1000 + extra_seed)))
     res = parallel_eval(plugin, cases)
@@ -694,6 +706,9 @@ def main(plugin) -> int:
             "anchored_files": anchor_files(plugin),
             "modelled_functions": sorted(modelled_hashes(plugin)),
             "modelled_functions_changed_since_pin": fn_changed,
+            "agreement_modules": agree_mods,
+            "agreement_checked": bool(agree_mods and ok_props and ok_agree),
+            "agreement_note": agree_note,
         },
         "assumptions": list(getattr(plugin, "ASSUMPTIONS", [])),
         "wall_s": round(time.time() - t0, 2),
